@@ -15,6 +15,7 @@
 #include "../net/gen.h"
 #include "sat_core.h"
 #include "lra_theory.h"
+#include "lra_constraint.h"
 #include "verif_hooks.h"
 #include <algorithm>
 #include <set>
@@ -25,6 +26,9 @@ using smt::lit;
 extern void (*sim_layout_free_hook)(void *, size_t);
 static sim::Out *g_out = nullptr;
 static sim::EventLog g_log;
+static std::string g_struct;
+static bool g_debug = false;
+static std::vector<std::string> g_debug_lines;
 static std::string g_tail;
 static std::vector<std::string> g_clauses;
 static long g_ops_done = 0;
@@ -41,6 +45,13 @@ static void hook(const smt::sat_core &, const std::vector<lit> &c)
   for (auto &x : ls)
     s += x + " ";
   g_clauses.push_back(s);
+  if (g_debug)
+  {
+    std::string u;
+    for (auto &l : c)
+      u += to_string(l) + " ";
+    g_debug_lines.push_back("rec@op" + std::to_string(g_ops_done) + " " + u);
+  }
 }
 
 static void emit_result(const std::string &status, const std::string &vline)
@@ -122,6 +133,45 @@ struct Interp
     for (auto x : xs)
       g_log.ev("x" + std::to_string(x) + " " + rs(lra->value(x)) + " [" + rs(lra->lb(x)) + "," + rs(lra->ub(x)) + "]");
     g_log.ev("level " + std::to_string(sat->decision_level()));
+    if (g_debug)
+    {
+      for (auto &tr : lra->tableau)
+        g_debug_lines.push_back("tab@op" + std::to_string(g_ops_done) + " x" + std::to_string(tr.first) + " = " + to_string(tr.second->l));
+      for (size_t v = 0; v < lra->t_watches.size(); ++v)
+      {
+        std::string w;
+        for (auto *r : lra->t_watches[v])
+          w += " x" + std::to_string(r->x) + "@" + sim::hex64(reinterpret_cast<uint64_t>(r)).substr(8);
+        g_debug_lines.push_back("watch@op" + std::to_string(g_ops_done) + " x" + std::to_string(v) + ":" + w);
+      }
+    }
+  }
+  // structural oracle (engine compiled with -fno-access-control): after every call the watch lists are exactly the
+  // transpose of the tableau rows. Returns a description of the first inconsistency, or "".
+  std::string watches()
+  {
+    for (auto &tr : lra->tableau)
+    {
+      if (tr.second->x != tr.first)
+        return "tableau[x" + std::to_string(tr.first) + "] is the row of x" + std::to_string(tr.second->x);
+      for (auto &t : tr.second->l.vars)
+      {
+        if (t.second == smt::rational::ZERO)
+          return "row of x" + std::to_string(tr.first) + " keeps a zero coefficient for x" + std::to_string(t.first);
+        if (!lra->t_watches[t.first].count(tr.second))
+          return "row of x" + std::to_string(tr.first) + " mentions x" + std::to_string(t.first) + " but is not in its watch list";
+      }
+    }
+    for (size_t v = 0; v < lra->t_watches.size(); ++v)
+      for (auto *r : lra->t_watches[v])
+      {
+        auto it = lra->tableau.find(r->x);
+        if (it == lra->tableau.end() || it->second != r)
+          return "watch list of x" + std::to_string(v) + " holds a row that is not in the tableau";
+        if (!r->l.vars.count(v))
+          return "watch list of x" + std::to_string(v) + " holds the row of x" + std::to_string(r->x) + " which does not mention it";
+      }
+    return "";
   }
   void res(const char *what, bool r)
   {
@@ -317,6 +367,9 @@ static void run_cmd(const sim::Cmd &c, sim::Out &out)
     return;
   }
   out.flush();
+  g_log.keep = g_debug = c.num("verbose", 0) != 0;
+  smt::verif::on_row_alloc = sim::layout::pool_alloc;
+  smt::verif::on_row_free = sim::layout::pool_free;
   sim::layout::start(seed, false, 0);
 #ifdef PARALLELIZE
   par::sched_start(sim::mix64(seed ^ (sched * 0x9E3779B97F4A7C15ULL)), policy, nprocs, policy == 0 ? 0 : spur);
@@ -329,8 +382,16 @@ static void run_cmd(const sim::Cmd &c, sim::Out &out)
   for (size_t i = 0; i < ops.size() && !in.dead; ++i)
   {
     g_log.ev("op " + ops[i].text());
+    if (getenv("DBG_LRA"))
+      fprintf(stderr, "op %zu %s\n", i, ops[i].text().c_str());
     in.exec(ops[i]);
     in.observe();
+    if (g_struct.empty())
+    {
+      g_struct = in.watches();
+      if (!g_struct.empty())
+        g_struct = "after op " + std::to_string(i) + " (" + ops[i].text() + "): " + g_struct;
+    }
     g_ops_done = static_cast<long>(i) + 1;
   }
   par::sched_stop();
@@ -339,7 +400,16 @@ static void run_cmd(const sim::Cmd &c, sim::Out &out)
   for (auto &s : g_clauses)
     g_log.ev("clause " + s);
   std::string h = sim::hex64(g_log.hash());
-  if (!expect.empty() && expect != h)
+  if (c.num("verbose", 0))
+  {
+    for (auto &l : g_log.lines)
+      out.line("T " + l);
+    for (auto &l : g_debug_lines)
+      out.line("T " + l);
+  }
+  if (!g_struct.empty())
+    emit_result("VIOL", "V oracle=PAR class=PAR.watch_lists_inconsistent op=0 msg=" + g_struct);
+  else if (!expect.empty() && expect != h)
     emit_result("VIOL", "V oracle=PAR class=PAR.differs_from_canonical_schedule op=0 msg=under schedule " + std::to_string(sched) + " (policy " + std::to_string(policy) + ", " + std::to_string(nprocs) + " workers) the observation log (verdicts, literal values, values and bounds of every variable, set of recorded clauses) has hash " + h + " but the canonical schedule gives " + expect);
   else
     emit_result("OK", "");
